@@ -16,7 +16,10 @@ struct Batch {
     outputs: Vec<Vec<bool>>,
 }
 
-fn batch(seed: u64, k: usize, concurrency: usize, with_consts: bool, outputs_all: bool, salt: u64) -> Batch {
+/// `with_consts`: 0 = no constants, 1 = every second policy takes constants from both parties,
+/// 2 = every policy takes a constant from its follower only (so the leader waits for a peer's
+/// constants after it has sent nothing itself), 3 = from its leader only
+fn batch(seed: u64, k: usize, concurrency: usize, with_consts: u8, outputs_all: bool, salt: u64) -> Batch {
     let n = 2;
     let mut policies = vec![];
     let mut leaders = vec![];
@@ -24,13 +27,18 @@ fn batch(seed: u64, k: usize, concurrency: usize, with_consts: bool, outputs_all
     for j in 0..k {
         let leader = j % n;
         let outs: Vec<bool> = if outputs_all { vec![true; n] } else { (0..n).map(|p| p != leader).collect() };
-        let consts: Vec<usize> = if with_consts && j % 2 == 0 { vec![0, 1] } else { vec![] };
+        let consts: Vec<usize> = match with_consts {
+            1 if j % 2 == 0 => vec![0, 1],
+            2 => vec![1 - leader],
+            3 => vec![leader],
+            _ => vec![],
+        };
         let (sp, _) = spec(n, leader, &consts, outs.clone());
         policies.push(make_policies(&sp, comp_id(seed, salt * 100 + j as u64)));
         leaders.push(leader);
         outputs.push(outs);
     }
-    Batch { name: format!("k{k}/c{concurrency}/consts{with_consts}/outs_all{outputs_all}"), n, concurrency, policies, leaders, outputs }
+    Batch { name: format!("k{k}/c{concurrency}/consts{}/outs_all{outputs_all}", ["false", "true", "_follower_only", "_leader_only"][with_consts as usize]), n, concurrency, policies, leaders, outputs }
 }
 
 /// Largest number of leader-side computations of one party whose MPC traffic was in flight at the
@@ -68,8 +76,12 @@ pub fn main(tier: Tier, seed: u64) -> i32 {
     let mut salt = 0;
     for k in if tier.is_thorough() { vec![1usize, 2, 3, 4, 6, 8] } else { vec![1, 2, 3, 4, 6] } {
         for c in [1usize, 2, 3] {
-            for (wc, oa) in [(false, true), (true, false)] {
+            for (wc, oa) in [(0u8, true), (1, false), (2, true), (3, false)] {
                 if k == 1 && c > 1 {
+                    continue;
+                }
+                // the one-sided constant layouts only for small batches (they add the starve jobs)
+                if wc >= 2 && (k > 3 || k == 1 || c > 2) {
                     continue;
                 }
                 salt += 1;
@@ -89,6 +101,9 @@ pub fn main(tier: Tier, seed: u64) -> i32 {
         /// two coordination RPCs fail in the same run
         Fail2(crate::srv::RpcKey, crate::srv::RpcKey),
         Cancel { pol: u8, party: u8, at: usize },
+        /// like Interleaved, but one coordination event is postponed until no other coordination
+        /// event (`false`) or no other event at all (`true`) is enabled
+        Starve(Ev, bool),
     }
     let mut jobs: Vec<(usize, Job)> = vec![];
     let mut bases = vec![];
@@ -131,6 +146,23 @@ pub fn main(tier: Tier, seed: u64) -> i32 {
                 }
             }
         }
+        if k <= 3 || tier.is_thorough() {
+            match run_walk(b.n, b.concurrency, b.policies.clone(), Walk { max_steps: 50_000, ..Default::default() }, MsgPolicy::Explicit, crate::exec::mix(seed, 1700 + bi as u64)) {
+                Ok(il) => {
+                    let mut seen: Vec<Ev> = vec![];
+                    for e in il.history.iter().filter(|e| !matches!(e, Ev::Msg { .. })) {
+                        if !seen.contains(e) {
+                            seen.push(e.clone());
+                            jobs.push((bi, Job::Starve(e.clone(), false)));
+                            if k <= 2 || tier.is_thorough() {
+                                jobs.push((bi, Job::Starve(e.clone(), true)));
+                            }
+                        }
+                    }
+                }
+                Err(e) => rep.machinery(format!("interleaved base walk failed for {}: {e}", b.name)),
+            }
+        }
         bases.push(Some(base));
     }
     let results = par_map(&jobs, |_, _, (bi, job)| {
@@ -158,6 +190,12 @@ pub fn main(tier: Tier, seed: u64) -> i32 {
                 }
             }
             Job::Cancel { pol, party, at } => walk.injections.push((*at, Ev::Cancel { pol: *pol, party: *party })),
+            Job::Starve(ev, past) => {
+                walk.prefer = vec![];
+                policy = MsgPolicy::Explicit;
+                walk.starve = vec![ev.clone()];
+                walk.starve_past_msgs = *past;
+            }
         }
         run_walk(b.n, b.concurrency, b.policies.clone(), walk, policy, crate::exec::mix(seed, 1700 + *bi as u64))
     });
@@ -191,7 +229,7 @@ pub fn main(tier: Tier, seed: u64) -> i32 {
             }
         }
         match job {
-            Job::Default | Job::Reverse | Job::Interleaved => {
+            Job::Default | Job::Reverse | Job::Interleaved | Job::Starve(..) => {
                 // everything ran to completion: full budget, all stopped, every destination served once
                 for (p, permits) in snap.permits.iter().enumerate() {
                     if *permits != b.concurrency {
@@ -271,7 +309,7 @@ pub fn main(tier: Tier, seed: u64) -> i32 {
     rep.set("batches", json!(batches.iter().map(|b| b.name.clone()).collect::<Vec<_>>()));
     rep.set("max_simultaneous_leader_side_computations_seen", json!(max_seen));
     rep.exhaustive = Some(true);
-    rep.rule = "batches of k two-party policies with alternating leaders sharing each party's semaphore (quick k<=4, c in {1,2}; thorough k<=8, c<=3), with/without constants and destinations: the default-order history, the reverse-preference history, every single validate/run/consts RPC failed once (transport error instead of delivery), and cancels of one policy at spaced positions. Oracle: overlap of the MPC-traffic intervals of the computations a party leads <= concurrency; full budget and all stopped at the end of complete runs; after a failed RPC the policy ends at the caller with an error notification (if it has a destination) and its permit is back".into();
+    rep.rule = "batches of k two-party policies with alternating leaders sharing each party's semaphore (quick k<=4, c in {1,2}; thorough k<=8, c<=3), without constants, with constants from both parties, from the follower only, from the leader only; with/without destinations: the default-order history, the reverse-preference history, the all-coordination-first history with explicit MPC messages and, around it, every single coordination event postponed until no other coordination event (or no event at all) is enabled; every single validate/run/consts RPC failed once (transport error instead of delivery), and cancels of one policy at spaced positions. Oracle: overlap of the MPC-traffic intervals of the computations a party leads <= concurrency; full budget and all stopped at the end of complete runs; after a failed RPC the policy ends at the caller with an error notification (if it has a destination) and its permit is back".into();
     rep.assumptions = vec!["histories are walks around the default order, not all interleavings of the batch (the per-process canonical form does not merge across policies that share a semaphore)".into()];
     rep.finish()
 }
